@@ -46,7 +46,7 @@ UNITS = {
     'V-TLFU': dict(engine='verus', overlay='v_tlfu.py', rlimit=60),
     'V-POW': dict(engine='verus', overlay='v_pow.py'),
     'K-PR': dict(engine='kani', files=['harness_lib.rs'], module={'harness_lib.rs': 'verif_hooks::harness'},
-                 n=dict(quick=2, thorough=3), bound='none (loop-free, payloads K=u8, V=u16 fully symbolic)',
+                 n=dict(quick=2, thorough=2), bound='none (loop-free, payloads K=u8, V=u16 fully symbolic)',
                  functions=[dict(function='PutResult::{eq, clone, Copy}', file='src/lib.rs', line=0, props=['C12'])],
                  assumptions=['PutResult impls are parametric in K, V (they only call ==/clone on payloads): checked for K=u8, V=u16']),
     'K-RAW': dict(engine='kani', files=['harness_raw.rs'], support_files=['gen.rs'], module={'harness_raw.rs': 'lru::raw::verif_hooks::harness'},
@@ -99,7 +99,7 @@ UNITS = {
     'K-SKETCH': dict(engine='kani', files=['harness_sketch.rs'],
                      module={'harness_sketch.rs': 'lfu::tinylfu::sketch::{SKMOD}::verif_hooks::harness'},
                      configs=['std', 'nostd'], all_configs=True,
-                     n=dict(quick=2, thorough=3), bound='row width 2, 4 or 8 counters (hash, seeds and counter contents unconstrained; depth 4 is a constant)',
+                     n=dict(quick=2, thorough=2), bound='row width 2, 4 or 8 counters (hash, seeds and counter contents unconstrained; depth 4 is a constant)',
                      timeout=dict(quick=900, thorough=1800),
                      functions=[dict(function=f, file='src/lfu/tinylfu/sketch/count_min_sketch_{std,core}.rs', line=0, props=['C11', 'C05'])
                                 for f in ['CountMinSketch::increment', 'CountMinSketch::estimate', 'CountMinSketch::reset', 'CountMinSketch::clear', 'CountMinRow::reset', 'CountMinRow::clear']],
@@ -124,7 +124,7 @@ UNITS = {
     'K-TLFU-CTOR': dict(engine='kani', files=['harness_tinylfu.rs'],
                         module={'harness_tinylfu.rs': 'lfu::tinylfu::verif_hooks::harness'},
                         configs=['std', 'nostd'],
-                        n=dict(quick=2, thorough=3), bound='sketch sizes 1..=8 in the constructor harness; Bloom::new for entries <= 2^32 and all ratios in (0,1) is complete',
+                        n=dict(quick=2, thorough=2), bound='sketch sizes 1..=8 in the constructor harness; Bloom::new for entries <= 2^32 and all ratios in (0,1) is complete',
                         timeout=dict(quick=1800, thorough=3600),
                         functions=[dict(function=f, file='src/lfu/tinylfu.rs', line=0, props=['C05', 'C11'])
                                    for f in ['TinyLFUBuilder::finalize', 'Bloom::new', 'get_size', 'calc_size_by_wrong_positives', 'CountMinSketch::new (no_std build)', 'next_power_of_2']],
